@@ -45,7 +45,7 @@ pub struct InnerProductArgPC;
 impl InnerProductArgPC {
 //@stub from=ipa.rs id=ipa.cm_commit
 //@stub from=ipa.rs id=ipa.check_degrees_and_bounds
-//@fn id=ipa.commit file=poly-commit/src/ipa_pc/mod.rs scope="impl<G, D, P> PolynomialCommitment<G::ScalarField, P> for InnerProductArgPC<G, D, P>" name=commit props=C08,C07,C04,C17,C01
+//@fn id=ipa.commit file=poly-commit/src/ipa_pc/mod.rs scope="impl<G, D, P> PolynomialCommitment<G::ScalarField, P> for InnerProductArgPC<G, D, P>" name=commit props=C08,C07,C04,C17,C01,C19
     fn commit<'a>(ck: &CommitterKey, polynomials: Vec<&'a LabeledPolynomial>, rng: Option<&mut Rng>) -> (res: Result<(Vec<LabeledCommitment<Commitment>>, Vec<Randomness>), Error>)
     requires
         ck.comm_key@.len() >= 1, ck.comm_key@.len() < usize::MAX,
@@ -53,12 +53,12 @@ impl InnerProductArgPC {
         rng is Some ==> rng->Some_0.present@,
     ensures
         // a polynomial above the supported degree or its declared bound, or a bound above the supported degree, is refused
-        (res is Ok) ==> (forall|i: int| 0 <= i < polynomials@.len() ==> ipa_admissible(ck, (#[trigger] polynomials@[i]))),   // name=ipa.commit.bound_violations_are_refused props=C04,C17
+        (res is Ok) ==> (forall|i: int| 0 <= i < polynomials@.len() ==> ipa_admissible(ck, (#[trigger] polynomials@[i]))),   // name=ipa.commit.bound_violations_are_refused props=C04,C17,C19
         res is Ok ==> res->Ok_0.0@.len() == polynomials@.len() && res->Ok_0.1@.len() == polynomials@.len(),   // name=ipa.commit.one_commitment_and_state_per_polynomial props=C01,C19
         res is Ok ==> (forall|i: int| 0 <= i < polynomials@.len() ==> ipa_commit_one(ck, (#[trigger] polynomials@[i]), &res->Ok_0.0@[i], &res->Ok_0.1@[i],
-            (if rng is Some { old(rng->Some_0).id@ } else { 0 }), (if rng is Some { old(rng->Some_0).pos@ } else { 0 }) + ipa_draws(polynomials@, i as nat))),   // name=ipa.commit.commitments_are_key_defined_linear_maps_with_fresh_blinding props=C08,C07,C01
-        (res is Ok && rng is None) ==> (forall|i: int| 0 <= i < polynomials@.len() ==> (#[trigger] polynomials@[i]).hiding_bound is None),   // name=ipa.commit.hiding_without_rng_never_succeeds props=C07,C17
-        res is Err ==> (exists|i: int| 0 <= i < polynomials@.len() && !ipa_admissible(ck, #[trigger] polynomials@[i])),   // name=ipa.commit.only_out_of_domain_requests_are_refused props=C17,C01
+            (if rng is Some { old(rng->Some_0).id@ } else { 0 }), (if rng is Some { old(rng->Some_0).pos@ } else { 0 }) + ipa_draws(polynomials@, i as nat))),   // name=ipa.commit.commitments_are_key_defined_linear_maps_with_fresh_blinding props=C08,C07,C01,C19
+        (res is Ok && rng is None) ==> (forall|i: int| 0 <= i < polynomials@.len() ==> (#[trigger] polynomials@[i]).hiding_bound is None),   // name=ipa.commit.hiding_without_rng_never_succeeds props=C07,C17,C19
+        res is Err ==> (exists|i: int| 0 <= i < polynomials@.len() && !ipa_admissible(ck, #[trigger] polynomials@[i])),   // name=ipa.commit.only_out_of_domain_requests_are_refused props=C17,C01,C19
 //@body
 //@rw * /&mut crate::optional_rng::OptionalRng\(rng\)/ => &mut optional_rng_wrap(rng)
 //@rw * /label\.to_string\(\)/ => string_to_string(label)
